@@ -104,6 +104,209 @@ fn dgcons(sid: u64, payload: &[u8], pattern: &[u64]) -> Value {
     json!({"steps": steps, "final_rem": e.remaining(), "final_chunk": jbytes(e.chunk())})
 }
 
+// ---------------------------------------------------------------- C02: frame segmentation through FrameStream
+pub fn code_of_name(n: &str) -> i64 {
+    match n {
+        "H3_DATAGRAM_ERROR" => 0x33, "H3_NO_ERROR" => 0x100, "H3_GENERAL_PROTOCOL_ERROR" => 0x101, "H3_INTERNAL_ERROR" => 0x102,
+        "H3_STREAM_CREATION_ERROR" => 0x103, "H3_CLOSED_CRITICAL_STREAM" => 0x104, "H3_FRAME_UNEXPECTED" => 0x105,
+        "H3_FRAME_ERROR" => 0x106, "H3_EXCESSIVE_LOAD" => 0x107, "H3_ID_ERROR" => 0x108, "H3_SETTINGS_ERROR" => 0x109,
+        "H3_MISSING_SETTINGS" => 0x10a, "H3_REQUEST_REJECTED" => 0x10b, "H3_REQUEST_CANCELLED" => 0x10c,
+        "H3_REQUEST_INCOMPLETE" => 0x10d, "H3_MESSAGE_ERROR" => 0x10e, "H3_CONNECT_ERROR" => 0x10f, "H3_VERSION_FALLBACK" => 0x110,
+        "QPACK_DECOMPRESSION_FAILED" => 0x200, "QPACK_ENCODER_STREAM_ERROR" => 0x201, "QPACK_DECODER_STREAM_ERROR" => 0x202,
+        _ => -1,
+    }
+}
+
+fn frame_item(f: &h3::proto::frame::Frame<h3::proto::frame::PayloadLen>) -> Value {
+    use h3::proto::frame::Frame;
+    match f {
+        Frame::Data(l) => json!({"c": "DATA", "len": l.0, "got": []}),
+        Frame::Headers(b) => json!({"c": "HEADERS", "payload": jbytes(&b[..])}),
+        Frame::CancelPush(id) => json!({"c": "CANCEL_PUSH", "v": b8(VarInt::from(*id).into_inner())}),
+        Frame::Settings(_) => json!({"c": "SETTINGS"}),
+        Frame::PushPromise(_) => json!({"c": "PUSH_PROMISE"}),
+        Frame::Goaway(v) => json!({"c": "GOAWAY", "v": b8(v.into_inner())}),
+        Frame::MaxPushId(id) => json!({"c": "MAX_PUSH_ID", "v": b8(VarInt::from(*id).into_inner())}),
+        Frame::WebTransportStream(_) => json!({"c": "WT"}),
+        Frame::Grease => json!({"c": "GREASE"}),
+    }
+}
+
+fn fs_err_code(e: h3::frame::FrameStreamError) -> i64 {
+    use h3::frame::FrameStreamError as E;
+    match e {
+        // the mapping every call site of FrameStream applies (connection.rs poll_control,
+        // connection_error_creators.rs handle_frame_stream_error_on_request_stream)
+        E::UnexpectedEnd => 0x106,
+        E::Proto(p) => code_of_name(&code_name_of_debug(&format!("{:?}", h3::error::internal_error::InternalConnectionError::got_frame_error(p)))),
+        E::Quic(_) => -2,
+    }
+}
+
+/// Drives a FrameStream over a simulated receive stream: the wire is delivered chunk by chunk, after every
+/// chunk the reader consumes everything it can; returns the cumulative observation after every chunk and at the end.
+fn frames(wire: &[u8], cuts: &[u64], fin: bool) -> Value {
+    use crate::simquic::{Log, Net, Role};
+    use std::panic::{catch_unwind, AssertUnwindSafe};
+    use std::task::{Context, Poll};
+    let net = Net::new(Role::Server, "s", Log::default());
+    let recv = net.raw_recv(0);
+    let mut fs: h3::frame::FrameStream<crate::simquic::SimRecv, bytes::Bytes> = h3::frame::FrameStream::new(h3::stream::BufRecvStream::new(recv));
+    let waker = futures_util::task::noop_waker();
+    let mut cx = Context::from_waker(&waker);
+    let mut items: Vec<Value> = vec![];
+    let mut term = json!({"term": "more"});
+    let mut in_data = false;
+    let mut done = false;
+    let mut drive = |fs: &mut h3::frame::FrameStream<crate::simquic::SimRecv, bytes::Bytes>, items: &mut Vec<Value>, term: &mut Value, in_data: &mut bool, done: &mut bool| {
+        if *done {
+            return;
+        }
+        let mut guard = 0;
+        loop {
+            guard += 1;
+            if guard > 10_000 {
+                *term = json!({"term": "livelock"});
+                *done = true;
+                return;
+            }
+            if *in_data {
+                let r = catch_unwind(AssertUnwindSafe(|| match fs.poll_data(&mut cx) {
+                    Poll::Ready(Ok(Some(mut b))) => {
+                        let mut v = vec![];
+                        while b.has_remaining() {
+                            let c = b.chunk().to_vec();
+                            b.advance(c.len());
+                            v.extend(c);
+                        }
+                        Ok(Some(Some(v)))
+                    }
+                    Poll::Ready(Ok(None)) => Ok(Some(None)),
+                    Poll::Ready(Err(e)) => Err(fs_err_code(e)),
+                    Poll::Pending => Ok(None),
+                }));
+                match r {
+                    Err(_) => {
+                        *term = json!({"term": "panic", "at": "poll_data"});
+                        *done = true;
+                        return;
+                    }
+                    Ok(Ok(Some(Some(v)))) => {
+                        if let Some(last) = items.last_mut() {
+                            last["got"].as_array_mut().unwrap().extend(v.iter().map(|x| json!(x)));
+                        }
+                    }
+                    Ok(Ok(Some(None))) => *in_data = false,
+                    Ok(Ok(None)) => {
+                        *term = json!({"term": "more"});
+                        return;
+                    }
+                    Ok(Err(code)) => {
+                        *term = json!({"term": "err", "code": code});
+                        *done = true;
+                        return;
+                    }
+                }
+            } else {
+                let r = catch_unwind(AssertUnwindSafe(|| match fs.poll_next(&mut cx) {
+                    Poll::Ready(Ok(Some(f))) => Ok(Some(Some(frame_item(&f)))),
+                    Poll::Ready(Ok(None)) => Ok(Some(None)),
+                    Poll::Ready(Err(e)) => Err(fs_err_code(e)),
+                    Poll::Pending => Ok(None),
+                }));
+                match r {
+                    Err(_) => {
+                        *term = json!({"term": "panic", "at": "poll_next"});
+                        *done = true;
+                        return;
+                    }
+                    Ok(Ok(Some(Some(it)))) => {
+                        let c = it["c"].as_str().unwrap_or("").to_string();
+                        items.push(it);
+                        if c == "DATA" {
+                            *in_data = true;
+                        } else if c == "WT" {
+                            *term = json!({"term": "wt"});
+                            *done = true;
+                            return;
+                        }
+                    }
+                    Ok(Ok(Some(None))) => {
+                        *term = json!({"term": "end"});
+                        *done = true;
+                        return;
+                    }
+                    Ok(Ok(None)) => {
+                        *term = json!({"term": "more"});
+                        return;
+                    }
+                    Ok(Err(code)) => {
+                        *term = json!({"term": "err", "code": code});
+                        *done = true;
+                        return;
+                    }
+                }
+            }
+        }
+    };
+    let mut inter = vec![];
+    let mut pos = 0usize;
+    for c in cuts {
+        let k = (*c as usize).min(wire.len() - pos);
+        net.deliver(0, &wire[pos..pos + k]);
+        pos += k;
+        drive(&mut fs, &mut items, &mut term, &mut in_data, &mut done);
+        inter.push(json!({"items": items.clone(), "t": term.clone()}));
+    }
+    if fin {
+        net.peer_fin(0);
+        drive(&mut fs, &mut items, &mut term, &mut in_data, &mut done);
+    }
+    std::mem::forget(fs); // a poisoned FrameStream must not run destructors that could panic again
+    json!({"inter": inter, "final": {"items": items, "t": term}})
+}
+
+fn obs_matches(exp: &Value, got: &Value, exact: bool) -> bool {
+    let (ei, gi) = (exp["items"].as_array().cloned().unwrap_or_default(), got["items"].as_array().cloned().unwrap_or_default());
+    if ei.len() != gi.len() {
+        return false;
+    }
+    for (e, g) in ei.iter().zip(gi.iter()) {
+        if e["c"] == "DATA" && g["c"] == "DATA" {
+            if e["len"] != g["len"] {
+                return false;
+            }
+            let (eb, gb) = (bytes_of(&e["got"]), bytes_of(&g["got"]));
+            // how eagerly a partly received DATA payload is handed out is not the property's business
+            if exact { if eb != gb { return false; } } else if !eb.starts_with(&gb) { return false; }
+        } else if e != g {
+            return false;
+        }
+    }
+    let codes: Vec<i64> = exp["codes"].as_array().map(|a| a.iter().map(|x| x.as_i64().unwrap_or(-9)).collect()).unwrap_or_default();
+    let gt = got["t"]["term"].as_str().unwrap_or("");
+    match exp["term"].as_str().unwrap_or("") {
+        "err" => gt == "err" && codes.contains(&got["t"]["code"].as_i64().unwrap_or(-9)),
+        "more" => gt == "more" || (gt == "err" && codes.contains(&got["t"]["code"].as_i64().unwrap_or(-9))),
+        t => gt == t,
+    }
+}
+
+/// comparison for fn "frames": expected and observed agree after every chunk and at the end
+pub fn frames_agree(v: &Value, got: &Value) -> bool {
+    let ei = v["exp"]["inter"].as_array().cloned().unwrap_or_default();
+    let gi = got["inter"].as_array().cloned().unwrap_or_default();
+    if ei.len() != gi.len() {
+        return false;
+    }
+    for (e, g) in ei.iter().zip(gi.iter()) {
+        if !obs_matches(e, g, false) {
+            return false;
+        }
+    }
+    obs_matches(&v["exp"]["final"], &got["final"], v["fin"] == true)
+}
+
 pub fn exec(v: &Value) -> Value {
     let f = v["fn"].as_str().unwrap_or("");
     guarded(|| match f {
@@ -112,6 +315,7 @@ pub fn exec(v: &Value) -> Value {
         "esize" => json!(VarInt::encoded_size(v["in"].as_u64().unwrap_or(0) as u8)),
         "sid" => sid(u64_of(&v["in"])),
         "sidadd" => sidadd(u64_of(&v["in"]), u64_of(&v["n"])),
+        "frames" => frames(&bytes_of(&v["wire"]), &v["cuts"].as_array().map(|a| a.iter().map(|x| x.as_u64().unwrap_or(0)).collect::<Vec<_>>()).unwrap_or_default(), v["fin"] == true),
         "dgenc" => dgenc(u64_of(&v["sid"]), &bytes_of(&v["payload"])),
         "dgdec" => dgdec(&bytes_of(&v["in"])),
         "dgcons" => dgcons(u64_of(&v["sid"]), &bytes_of(&v["payload"]), &v["pattern"].as_array().map(|a| a.iter().map(|x| x.as_u64().unwrap_or(0)).collect::<Vec<_>>()).unwrap_or_default()),
@@ -142,7 +346,8 @@ pub fn run_vectors(inp: &str, out: &str) -> Result<(), String> {
             writeln!(w, "{}", json!({"rec": rec})).map_err(|e| e.to_string())?;
             continue;
         }
-        if got != v["exp"] {
+        let agree = if v["fn"] == "frames" { frames_agree(&v, &got) } else { got == v["exp"] };
+        if !agree {
             bad += 1;
             writeln!(w, "{}", json!({"i": i + 1, "ok": false, "vec": v, "got": got})).map_err(|e| e.to_string())?;
         }
@@ -175,6 +380,56 @@ pub fn run_random(prop: &str, seed: u64, n: usize, out: &str) -> Result<(), Stri
                     2 => json!({"fn": "sid", "in": b8(x)}),
                     _ => json!({"fn": "sidadd", "in": b8(x & ((1u64 << 62) - 1)), "n": b8(rng.random::<u64>() >> rng.random_range(0..64u32))}),
                 }
+            }
+            "C02" => {
+                // grammar-directed random wire: frames of every class, random varint forms, valid and invalid payloads
+                let mut wire: Vec<u8> = vec![];
+                let vi = |rng: &mut rand::rngs::StdRng, x: u64, w: &mut Vec<u8>| {
+                    let min = if x < 64 { 0 } else if x < 16384 { 1 } else if x < (1 << 30) { 2 } else { 3 };
+                    let form = rng.random_range(min..=3u32.min(min + 2));
+                    match form {
+                        0 => w.push(x as u8),
+                        1 => w.extend_from_slice(&(0x4000u16 | x as u16).to_be_bytes()),
+                        2 => w.extend_from_slice(&(0x8000_0000u32 | x as u32).to_be_bytes()),
+                        _ => w.extend_from_slice(&(0xc000_0000_0000_0000u64 | x).to_be_bytes()),
+                    }
+                };
+                let nframes = rng.random_range(1..8usize);
+                for _ in 0..nframes {
+                    let ty: u64 = match rng.random_range(0..16u32) {
+                        0..=4 => 0, 5..=6 => 1, 7 => 3, 8 => 7, 9 => 13, 10 => 4, 11 => 5,
+                        12 => [2u64, 6, 8, 9][rng.random_range(0..4usize)],
+                        13 => 0x21 + 0x1f * rng.random_range(0..1000u64),
+                        14 => rng.random_range(14..64u64).max(14),
+                        _ => rng.random_range(66..100000u64),
+                    };
+                    let mut payload: Vec<u8> = vec![];
+                    match ty {
+                        0 | 1 => { let n = if rng.random_bool(0.2) { rng.random_range(0..700usize) } else { rng.random_range(0..12usize) }; payload = (0..n).map(|_| rng.random()).collect(); }
+                        3 | 7 | 13 => {
+                            { let x = rng.random::<u64>() >> rng.random_range(2..64u32); vi(&mut rng, x, &mut payload); }
+                            match rng.random_range(0..8u32) { 0 => payload.push(rng.random()), 1 => { payload.pop(); } _ => {} }
+                        }
+                        4 => {
+                            for _ in 0..rng.random_range(0..4usize) {
+                                let id = match rng.random_range(0..6u32) { 0 => 6, 1 => 8, 2 => 0x33, 3 => rng.random_range(0..6u64), 4 => 0x21 + 0x1f * rng.random_range(0..100u64), _ => rng.random_range(10..5000u64) };
+                                { let idv = id; vi(&mut rng, idv, &mut payload); }
+                                { let x = rng.random::<u64>() >> rng.random_range(2..64u32); vi(&mut rng, x, &mut payload); }
+                            }
+                            if rng.random_bool(0.15) { payload.push(rng.random_range(0..64u8)); }
+                        }
+                        5 => { let x = rng.random_range(0..100u64); vi(&mut rng, x, &mut payload); if rng.random_bool(0.3) { payload.clear(); } payload.extend((0..rng.random_range(0..5usize)).map(|_| rng.random::<u8>())); }
+                        _ => { payload = (0..rng.random_range(0..20usize)).map(|_| rng.random()).collect(); }
+                    }
+                    vi(&mut rng, ty, &mut wire);
+                    vi(&mut rng, payload.len() as u64, &mut wire);
+                    wire.extend_from_slice(&payload);
+                }
+                if rng.random_bool(0.4) { let k = rng.random_range(0..=wire.len()); wire.truncate(k); }
+                let mut cuts: Vec<u64> = vec![];
+                let mut left = wire.len();
+                while left > 0 { let c = if rng.random_bool(0.3) { left } else { rng.random_range(1..=left.min(40)) }; cuts.push(c as u64); left -= c; }
+                json!({"fn": "frames", "wire": jbytes(&wire), "cuts": cuts, "fin": rng.random_bool(0.6)})
             }
             "C18" => {
                 let k: u64 = { let bits = rng.random_range(0..=60u32); if bits == 0 { 0 } else { rng.random::<u64>() >> (64 - bits) } };
